@@ -10,17 +10,17 @@ ALL = [f"C{i:02d}" for i in range(1, 21)]
 CLAIMED = {
     "C09": dict(
         technique="TLA+ spec (Ring.tla, MABuffer.tla) model-checked by TLC + conformance: TLC's transition relation replayed into the real buffers and every recorded execution validated by TLC (trace validation)",
-        text="Exhaustive TLC check of an implementation-shaped ring/FIFO specification (capacities 1..4, all widths, clear at any point) decides the design; every Add/Clear edge of TLC's reachable graph is executed on the real ReplayBuffer and MultiAgentReplayBuffer for vector/image/dict/tuple observations with sample(B) for all B, and seeded long runs (capacity up to 64) are recorded; TLC validates each recorded execution against the spec with all invariants on.",
+        text="Exhaustive TLC check of an implementation-shaped ring/FIFO specification (capacities 1..4, all widths, clear at any point) decides the design; every Add/Clear edge of TLC's reachable graph is executed on the real ReplayBuffer and MultiAgentReplayBuffer for vector/image/dict/tuple observations with sample(B) for all B, and seeded long runs (capacity up to 64) are recorded; TLC validates each recorded execution against the spec with all invariants on. Histories of any length: Apalache shows the invariant of specs/Ring_Ind.tla inductive (symbolic number of added transitions, every capacity up to 4 / 8).",
         note="Trusted: TLC, the id codec/projection in vfw/codec.py + vfw/drive/ring.py (decodes storage[:len] / memory field by field), float32 exactness of ids < 2^17. Widths > capacity are outside the property.",
         design="4/C09"),
     "C10": dict(
         technique="TLA+ spec NStep.tla (permissive AllowedK exactly as the property states; ImplK = implementation rule) model-checked by TLC + TLC trace validation of the real MultiStepReplayBuffer and its companion 1-step buffer",
-        text="TLC checks NoCross, ReturnDef, StopsOnlyAtEnd, Aligned and ImplAllowed for every placement of done flags (streams <= 6, n <= 3, <= 2 envs, all permitted cuts). The same grid of done placements plus seeded long streams (n 1..5, 1..4 envs, capacity 4..16, PER companion, index-coupled sampling) is executed on the real buffers; after every add both storages are snapshotted and TLC validates the whole execution against the spec.",
+        text="TLC checks NoCross, ReturnDef, StopsOnlyAtEnd, Aligned and ImplAllowed for every placement of done flags (streams <= 6, n <= 3, <= 2 envs, all permitted cuts). The same grid of done placements plus seeded long streams (n 1..5, 1..4 envs, capacity 4..16, PER companion, index-coupled sampling) is executed on the real buffers; after every add both storages are snapshotted and TLC validates the whole execution against the spec. Discounts 9/10 and 99/100 (rational arithmetic in NStep.tla) and the buffers' dtype option are exercised as well.",
         note="Trusted: TLC, projection in vfw/drive/nstep.py (decodes (t,e) from obs/action, last step from next_obs, scaled return), gamma in {1,1/2,1/4} so float32 returns are exact. Truncation without done is not treated as an episode end.",
         design="4/C10"),
     "C11": dict(
         technique="TLA+ spec PER.tla (implementation-shaped segment trees, exact integer arithmetic) model-checked by TLC + TLC trace validation of the real PrioritizedReplayBuffer (exact mode with stubbed variates; inexact mode with measured facts)",
-        text="TLC checks TreeSum, TreeMin, LeavesOK, PtrOK, MaxPOK, NewGetsMax and SampleOK over all interleavings of add/update/sample for capacities 1..5. Exact-mode executions of the real buffer (alpha=1, integer priorities, variates k/8 incl. stratum ends) are validated by TLC leaf by leaf, index by index and weight by weight (as exact fractions); inexact-mode executions (float priorities incl. 0, 1e-9, 1e8, repeated indices, alpha/beta grid, any batch size) are validated on the discrete state plus tolerance-classified facts.",
+        text="TLC checks TreeSum, TreeMin, LeavesOK, PtrOK, MaxPOK, NewGetsMax and SampleOK over all interleavings of add/update/sample for capacities 1..5. Exact-mode executions of the real buffer (alpha=1, integer priorities, variates k/8 incl. stratum ends) are validated by TLC leaf by leaf, index by index and weight by weight (as exact fractions); inexact-mode executions (float priorities incl. 0, 1e-9, 1e8, repeated indices, alpha/beta grid, any batch size) are validated on the discrete state plus tolerance-classified facts. Every other batch is drawn through Sampler.sample_per, beta = 0 included.",
         note="Trusted: TLC, float->fraction conversion (limit_denominator 4096), tolerance 1e-9/1e-5 in inexact mode, driver-side stub of torch.rand during sample(). clear() is outside C11's quantifier.",
         design="4/C11"),
     "C12": dict(
@@ -30,17 +30,17 @@ CLAIMED = {
         design="4/C12"),
     "C13": dict(
         technique="TLA+ spec VecEnv.tla (implementation-shaped async protocol with Raise/Kill faults and blocking conditions) model-checked by TLC for safety, deadlock (= hang) and liveness + TLC-simulated behaviours replayed as fault scripts on the real AsyncPettingZooVecEnv, outcomes validated by TLC (VecEnv_Trace)",
-        text="TLC explores every interleaving of client calls (incl. out-of-order use, timeouts, close in 4 blocking phases), worker progress and up to 2 raise/kill faults for 2 workers: MisuseRejected, ErrorTypeOK, TimeoutIsTimeout, CloseNeverRaises, NoWorkerLeft, no deadlock, and NoHang under fairness. Behaviours generated by tlc -simulate plus hand-written fault scripts are executed against the real class (sub-environments that raise / sleep / SIGKILL at a given command, 10 s watchdog); TLC validates each recorded execution, inferring worker progress.",
+        text="TLC explores every interleaving of client calls (incl. out-of-order use, timeouts, close in 4 blocking phases), worker progress and up to 2 raise/kill faults for 2 workers: MisuseRejected, ErrorTypeOK, TimeoutIsTimeout, CloseNeverRaises, NoWorkerLeft, no deadlock, and NoHang under fairness. Behaviours generated by tlc -simulate plus hand-written fault scripts are executed against the real class (sub-environments that raise / sleep / SIGKILL at a given command, 10 s watchdog); TLC validates each recorded execution, inferring worker progress. Sub-environments stuck far beyond the watchdog with a forced close are part of the hand-written scripts.",
         note="Trusted: TLC; fork-based scenario runner with watchdog (hang = no return within 10 s, injected sleeps 0.5 s, timeouts 0.15 s); BrokenPipe/ConnectionReset abstracted to one class. Exhaustive configs assume the client does not re-issue a wait after EOFError (that history is the recorded known finding F-C13-2).",
         design="4/C13"),
     "C01": dict(
         technique="TLA+ life-cycle spec Evo.tla (relational views, learn/act memo = functional determinism, storage ownership) model-checked by TLC + TLC trace validation of operation scripts executed on real agents of all 11 algorithms",
-        text="TLC explores all operation sequences (create/clone/learn/mutate/save/load/discard) up to the bound with ideal constructors and checks NoSharing, Frame, AllCoherent, DistinctIdx, Functional. Scripts that clone at every point of a history (learn steps, the five mutation kinds, earlier clones), train parent and clone with the same batch, train/mutate/discard siblings are executed on real agents of every algorithm x observation family; after every operation each agent is projected (SHA-256 of every weight, target, optimizer state and algorithm-specific tensor; hp; bookkeeping; greedy outputs; data_ptr/id of all mutable storage) and TLC validates CloneOK, Frame, NoSharing and the learn memo on the recorded execution.",
+        text="TLC explores all operation sequences (create/clone/learn/mutate/save/load/discard) up to the bound with ideal constructors and checks NoSharing, Frame, AllCoherent, DistinctIdx, Functional. Scripts that clone at every point of a history (learn steps, the five mutation kinds, earlier clones), train parent and clone with the same batch, train/mutate/discard siblings are executed on real agents of every algorithm x observation family; after every operation each agent is projected (SHA-256 of every weight, target, optimizer state and algorithm-specific tensor; hp; bookkeeping; greedy outputs; data_ptr/id of all mutable storage) and TLC validates CloneOK, Frame, NoSharing and the learn memo on the recorded execution. Tournament rounds of the real TournamentSelection are part of the histories (elite and members are clones).",
         note="Trusted: TLC, projection vfw/project/agent.py (fingerprints <=> content, pointer sets), deterministic learn steps (all RNGs seeded from the batch id, single thread, CPU). PPO/DDPG/TD3 are built with share_encoders=False (sharing cannot be constructed under Python 3.12). DQN's target may be re-synchronised on copy as the property allows.",
         design="4/C01"),
     "C02": dict(
         technique="TLA+ life-cycle spec Evo.tla (MutateOK per mutation kind, Coherent, ShadowArch/ShadowW, label) model-checked by TLC + TLC trace validation of mutation scripts run through the real Mutations class on real agents",
-        text="TLC checks that MutateOK in every reachable state preserves AllCoherent/Frame for DQN-like and actor-critic shapes. The real Mutations.mutation() is driven with one-hot kind probabilities (none, architecture, parameters, activation, RL hyperparameter), per agent and per population, pre- and in-training, over generations of clone/mutate/learn; TLC validates per event: optimizer parameter identity, every param-group lr, target architecture and weights, all-or-none architecture change of evaluation networks, mut label, can-act, population size/order, and that the following learn step moves every trained network.",
+        text="TLC checks that MutateOK in every reachable state preserves AllCoherent/Frame for DQN-like and actor-critic shapes. The real Mutations.mutation() is driven with one-hot kind probabilities (none, architecture, parameters, activation, RL hyperparameter), per agent and per population, pre- and in-training, over generations of clone/mutate/learn; TLC validates per event: optimizer parameter identity, every param-group lr, target architecture and weights, all-or-none architecture change of evaluation networks, mut label, can-act, population size/order, and that the following learn step moves every trained network. SameChange: networks with the same layer configuration before a mutation have the same one afterwards (networks at the layer maximum, layer-only mutations, pre-training learning-rate mutations followed by clones).",
         note="Trusted: as C01. Method/arguments/direction of a mutation are drawn by the real code and observed, only the kind is forced. TD3/MATD3 run with policy_freq=1 here.",
         design="4/C02"),
     "C05": dict(
@@ -55,17 +55,17 @@ CLAIMED = {
         design="4/C07"),
     "C14": dict(
         technique="TLA+ spec ActionSel.tla (allowed-action sets per mask / exploration / bounds) model-checked by TLC + TLC-dumped grid replayed into the real get_action of every algorithm with stubbed network outputs, each call validated by TLC (ActionSel_Trace)",
-        text="TLC enumerates value vectors with ties, all masks with a legal action, exploration on/off, MultiDiscrete/MultiBinary, Box with asymmetric per-dimension bounds, two-agent calls with per-agent masks and environment-defined actions: Legal, GreedyIsBestAllowed, InBounds, BatchShape, Override. Each grid row is replayed into the real agents (DQN, CQN, Rainbow, NeuralUCB/TS, PPO, DDPG, TD3, MADDPG, MATD3, IPPO) with the policy forward stubbed; TLC validates the returned action and shape, action_space.contains is asserted independently.",
+        text="TLC enumerates value vectors with ties, all masks with a legal action, exploration on/off, MultiDiscrete/MultiBinary, Box with asymmetric per-dimension bounds, two-agent calls with per-agent masks and environment-defined actions: Legal, GreedyIsBestAllowed, InBounds, BatchShape, Override. Each grid row is replayed into the real agents (DQN, CQN, Rainbow, NeuralUCB/TS, PPO, DDPG, TD3, MADDPG, MATD3, IPPO) with the policy forward stubbed; TLC validates the returned action and shape, action_space.contains is asserted independently. Policies after a clone-and-mutate history and info dictionaries in another key order than agent_ids are included.",
         note="Trusted: TLC, driver-side stubbing of network forwards (selection logic is under test, not the network). Stochastic policies in training mode may leave Box bounds (not flagged).",
         design="4/C14"),
     "C15": dict(
         technique="TLA+ spec ObsPrep.tla (shape-and-content algebra with BatchConsistency, RoundTrip, CriticMap) model-checked by TLC + every TLC-dumped case replayed into the real preprocessing / assembly functions and agents",
-        text="TLC enumerates Box ranks 0-4 with extents {1,2,3}, Discrete incl. n=1, MultiDiscrete, MultiBinary, Dict/Tuple, leading shapes incl. batch-of-one and (step, env), with negative-control variants that must be rejected. Each dumped case (expected shape and content) is materialised as numpy/torch/TensorDict/number and passed to the real preprocess_observation, get_vect_dim, maybe_add_batch_dim, assemble/disassemble_homogeneous_outputs, stack_critic_observations and IPPO.learn's batching; the consequence clause is checked on real DQN/PPO/MADDPG/MATD3/IPPO agents.",
+        text="TLC enumerates Box ranks 0-4 with extents {1,2,3}, Discrete incl. n=1, MultiDiscrete, MultiBinary, Dict/Tuple, leading shapes incl. batch-of-one and (step, env), with negative-control variants that must be rejected. Each dumped case (expected shape and content) is materialised as numpy/torch/TensorDict/number and passed to the real preprocess_observation, get_vect_dim, maybe_add_batch_dim, assemble/disassemble_homogeneous_outputs, stack_critic_observations and IPPO.learn's batching; the consequence clause is checked on real DQN/PPO/MADDPG/MATD3/IPPO agents. Multi-agent preparation with a first agent whose space has other value attributes; Dict observations with their keys in another order.",
         note="Trusted: TLC, exact float32 arithmetic on the chosen dyadic grid; consequence clause uses tolerance 1e-6 single-threaded.",
         design="4/C15"),
     "C17": dict(
         technique="TLA+ spec GAE.tla (masked backward recursion as the code performs it vs. per-episode-segment definition; row alignment) model-checked by TLC + TLC-dumped rollouts replayed into the real PPO.learn / IPPO.learn through the guarded recorder hook, each call validated by TLC (GAE_Trace)",
-        text="TLC checks RecursionMeetsDefinition, NoLeak, ColumnsSeparate, RowsAligned for every placement of done flags (incl. first step, last step, next_done), gamma, lambda in {0,1/2,1}, plus a negative control. 21k dumped rollouts are packed into real learn calls (PPO: 1-4 envs, Box/Discrete, un-vectorised; IPPO: envs x agents sharing a policy, both next_done shapes); the hook exports advantages/returns and the flattened rows; TLC validates every backward step, returns, bit-identical estimates before a boundary under perturbation, and decoded rows.",
+        text="TLC checks RecursionMeetsDefinition, NoLeak, ColumnsSeparate, RowsAligned for every placement of done flags (incl. first step, last step, next_done), gamma, lambda in {0,1/2,1}, plus a negative control. 21k dumped rollouts are packed into real learn calls (PPO: 1-4 envs, Box/Discrete, un-vectorised; IPPO: envs x agents sharing a policy, both next_done shapes); the hook exports advantages/returns and the flattened rows; TLC validates every backward step, returns, bit-identical estimates before a boundary under perturbation, and decoded rows. Rollout.tla: the flags handed to learn() by the real train_on_policy / train_multi_agent_on_policy mark exactly the episode ends (termination or truncation) reported by scripted vector environments, next_state follows the last state.",
         note="Trusted: TLC, the guarded hook (agilerl/utils/verif_hooks.py) reports the tensors learn() uses, scaled-integer arithmetic (ScaleExact). Critic next_value is observed and bound.",
         design="4/C17"),
     "C18": dict(
@@ -75,12 +75,12 @@ CLAIMED = {
         design="4/C18"),
     "C06": dict(
         technique="TLA+ spec EvoHP.tla over exact rationals (Rat.tla): own-base, clip, cast, one-change, lr-effective, model-checked by TLC + TLC trace validation of the real Mutations(rl_hp) on real populations built from one shared configuration object",
-        text="TLC checks InRange, IntIsInt, LrEffective, OneChange, OwnBase for a float lr and an int batch size at both boundaries over all sequences of <= 5 mutations / copies of two agents. The real rl_hyperparam_mutation is driven per agent and per population, interleaved with learn steps and clones, for every algorithm; exact traces (dyadic factors incl. shrink>1 / grow<1) log every value as a fraction and TLC recomputes clip/cast from the agent's own value; traces with the default factors carry measured facts.",
+        text="TLC checks InRange, IntIsInt, LrEffective, OneChange, OwnBase for a float lr and an int batch size at both boundaries over all sequences of <= 5 mutations / copies of two agents. The real rl_hyperparam_mutation is driven per agent and per population, interleaved with learn steps and clones, for every algorithm; exact traces (dyadic factors incl. shrink>1 / grow<1) log every value as a fraction and TLC recomputes clip/cast from the agent's own value; traces with the default factors carry measured facts. Assign: values set from outside between mutations are the base of the next mutation; equal learning rates given as distinct float objects.",
         note="Trusted: TLC, Fraction(float) exactness, mapping of optimizers to their intended learning rate by attribute name. The direction and the hyperparameter are drawn by the real code and observed.",
         design="4/C06"),
     "C16": dict(
         technique="TLA+ spec Dist.tla (exact rational kernel for masked categorical / multi-categorical / Bernoulli / Normal-quadratic-form distributions + history machine EvalIsFunctionOfArgument) model-checked by TLC + TLC-dumped cases replayed into real actors / PPO / IPPO with stubbed head outputs, history traces validated by TLC",
-        text="TLC checks MassOne, MaskedZero, ProductOverComponents, Support, BoxQuadratic on the kernel grid and the history invariants (with a negative control that must fail). 6.5k dumped cases are replayed into the real StochasticActor, PPO.get_action / evaluate_actions / learn and IPPO; exp(log_prob) is compared with the spec's rational, entropy with -sum p ln p of the masked pmfs, samples with the support; history traces of real unstubbed networks (with and without tanh squashing) are validated against Dist_Trace.",
+        text="TLC checks MassOne, MaskedZero, ProductOverComponents, Support, BoxQuadratic on the kernel grid and the history invariants (with a negative control that must fail). 6.5k dumped cases are replayed into the real StochasticActor, PPO.get_action / evaluate_actions / learn and IPPO; exp(log_prob) is compared with the spec's rational, entropy with -sum p ln p of the masked pmfs, samples with the support; history traces of real unstubbed networks (with and without tanh squashing) are validated against Dist_Trace. The kernels also run on policies after a clone-and-mutate history through Mutations.architecture_mutate.",
         note="Trusted: TLC, the one transcendental evaluation done by the harness (ln 2, ln 2 pi, tanh correction as the code defines it), tolerance 1e-6 (1e-5 history). The numeric density of squashed policies beyond the code's own definition is a declared gap.",
         design="4/C16, 5"),
     "C19": dict(
@@ -90,12 +90,12 @@ CLAIMED = {
         design="4/C19"),
     "C08": dict(
         technique="TLA+ specs Bellman.tla (tabular exact Bellman target / loss for max, double, actor, actor-min learners; DoneMasks) and Track.tla (target-tracking protocol with policy delay over learn / clone / mutate / load) model-checked by TLC + TLC-dumped grid replayed into the real learn() with tabular custom networks, differential done-masking runs, and tracking traces of real agents validated by TLC",
-        text="TLC checks DoneMasks, TerminalIsReward, Bootstraps, LossDef on the tabular grid (with negative controls that must fail) and TargetTracks / BoundedLag on the protocol. 55k grid cases are replayed into the real DQN / double DQN / CQN / DDPG / TD3 learn() built on table-lookup EvolvableModules (Q(s,a), Y and loss compared exactly), MADDPG/MATD3 joint cases validated as traces, Rainbow and CQN by bit-exact / tolerance differential runs; life-cycle scripts with the real Mutations and checkpoints classify every target tensor as lerp/noop/copy and TLC demands lerp at exactly the protocol's positions.",
+        text="TLC checks DoneMasks, TerminalIsReward, Bootstraps, LossDef on the tabular grid (with negative controls that must fail) and TargetTracks / BoundedLag on the protocol. 55k grid cases are replayed into the real DQN / double DQN / CQN / DDPG / TD3 learn() built on table-lookup EvolvableModules (Q(s,a), Y and loss compared exactly), MADDPG/MATD3 joint cases validated as traces, Rainbow and CQN by bit-exact / tolerance differential runs; life-cycle scripts with the real Mutations and checkpoints classify every target tensor as lerp/noop/copy and TLC demands lerp at exactly the protocol's positions. LossOnly: every learn step of the module-based learners equals the step of an exact copy with cleared gradient buffers; no-op mutation rounds are part of the tracking scripts.",
         note="Trusted: TLC, forward hook on the criterion to read Q and Y, tolerance 1e-5 for the lerp classification (tau in {1/2,1/4}), policy_noise=0 in tabular runs. The numeric value of CQN's logsumexp regulariser is not predicted.",
         design="4/C08, 5"),
     "C20": dict(
         technique="TLA+ specs TrainLoop.tla (population counters: steps = env steps along the lineage, budget rule any/sum, one fitness per generation, elite carried) and its refinement TrainLoop_Fine.tla (per-step loop with learn scheduling) model-checked by TLC incl. refinement and negative controls + TLC-enumerated configurations run through the six real train_* functions on counting probe environments, event traces validated by TLC (TrainLoop_Trace)",
-        text="TLC checks StepsAreEnvSteps, NoGenerationOnceMet / ReturnOnlyWhenMet (stops in the first generation in which the budget is met), OneFitnessPerGeneration, PopShape, EliteCarried, Inherited and that the fine-grained loop model refines the abstract one; three seeded design defects must be rejected. A stratified subset of 18.7k TLC-enumerated configurations (num_envs vs learn_step, exact / overshot budgets, memories uniform / n-step / PER, tournament + mutation kinds, checkpoints, early stopping) is run through train_off_policy, train_on_policy, train_offline, train_bandits and both multi-agent loops with real agents, buffers, Sampler, TournamentSelection and Mutations on environments that count reset/step; each run's generation / selection / return events are validated by TLC, an exception is a 'compose' violation.",
+        text="TLC checks StepsAreEnvSteps, NoGenerationOnceMet / ReturnOnlyWhenMet (stops in the first generation in which the budget is met), OneFitnessPerGeneration, PopShape, EliteCarried, Inherited and that the fine-grained loop model refines the abstract one; three seeded design defects must be rejected. A stratified subset of 18.7k TLC-enumerated configurations (num_envs vs learn_step, exact / overshot budgets, memories uniform / n-step / PER, tournament + mutation kinds, checkpoints, early stopping) is run through train_off_policy, train_on_policy, train_offline, train_bandits and both multi-agent loops with real agents, buffers, Sampler, TournamentSelection and Mutations on environments that count reset/step; each run's generation / selection / return events are validated by TLC, an exception is a 'compose' violation. Grids include sub-environment counts that do not divide evo_steps and populations with heterogeneous learn_step.",
         note="Trusted: TLC, driver-side class-level wrappers that only log (get_action, learn, test, clone, save_checkpoint), step counting at the vector level, lineage from clone calls, elite identity by fingerprint. For train_offline the step unit is one learn call.",
         design="4/C20"),
     "C03": dict(
